@@ -356,8 +356,56 @@ def rule_Y9(ctx) -> None:
             ctx.inconclusive("Y9", "model_validator:use-implies-import", f"{pr} not recognised: {src[:120]}", models.loc(fn))
 
 
+def rule_Y11(ctx) -> None:
+    """what the pydantic variants add to an enum class only tells pydantic that the field holds an integer: the core schema is
+    the plain int schema - no validator that runs the closed member lookup `cls(number)` (enums are open: a number without a
+    member is a legal value in every configuration), no bound that excludes numbers an int32 enum can take"""
+    from .template import configs, residual, parse_residual
+    for comp in ("direct", "root", "310"):
+        cfg = next(configs(["plain"], compilers=(comp,), pydantic=(True,), streaming=[(False, False)]))
+        text, _ = residual(ctx, cfg)
+        tree, err = parse_residual(text)
+        name = f"enum-core-schema:open[typing.{comp},pydantic]"
+        if tree is None:
+            ctx.inconclusive("Y11", name, f"residual module does not parse: {err}", T_BODY)
+            continue
+        ctx.count(1)
+        enum = next((c for c in tree.body if isinstance(c, ast.ClassDef) and any("Enum" in ast.unparse(b) for b in c.bases)), None)
+        fn = next((f for f in (enum.body if enum else []) if isinstance(f, ast.FunctionDef) and f.name == "__get_pydantic_core_schema__"), None)
+        if fn is None:
+            ctx.proved("Y11", name, T_BODY, "no core schema hook: pydantic treats the member as the int it is")
+            continue
+        rets = [r.value for r in ast.walk(fn) if isinstance(r, ast.Return) and r.value is not None]
+        cls_name = fn.args.args[0].arg if fn.args.args else "cls"
+        bad = None
+        for r in rets:
+            for c in ast.walk(r):
+                if isinstance(c, ast.Call):
+                    if any(isinstance(a, ast.Name) and a.id == cls_name for a in c.args) or any(isinstance(k.value, ast.Name) and k.value.id == cls_name for k in c.keywords):
+                        bad = bad or f"`{ast.unparse(c)[:90]}` passes the enum class itself as a validator: `{cls_name}(number)` is the closed lookup and raises for a number without a member"
+                    if ast.unparse(c.func).endswith("int_schema"):
+                        for k in c.keywords:
+                            if k.arg in ("ge", "gt", "le", "lt", "multiple_of"):
+                                try:
+                                    v = ast.literal_eval(k.value)
+                                except Exception:
+                                    v = None
+                                lo_ok = k.arg in ("ge", "gt") and isinstance(v, int) and v <= -(1 << 31) - (1 if k.arg == "gt" else 0)
+                                hi_ok = k.arg in ("le", "lt") and isinstance(v, int) and v >= (1 << 31) - 1 + (1 if k.arg == "lt" else 0)
+                                if not (lo_ok or hi_ok):
+                                    bad = bad or f"`{ast.unparse(c)}` restricts the number with {k.arg}={ast.unparse(k.value)}: enum numbers range over all of int32 (negative ones included)"
+        if bad:
+            ctx.refuted("Y11", name, "closed-or-bounded", T_BODY, f"under pydantic_dataclasses the generated enum's core schema {bad}; the standard-dataclass variants accept that number and encode it, "
+                        "so the configurations no longer behave alike", "Msg(status=7) where Status has no member 7")
+        elif not rets:
+            ctx.inconclusive("Y11", name, "__get_pydantic_core_schema__ has no return", T_BODY)
+        else:
+            ctx.proved("Y11", name, T_BODY, ast.unparse(rets[0])[:60])
+
+
 def run(ctx) -> None:
-    ctx.rules_run += ["Y1", "Y2", "Y3", "Y4", "Y5", "Y6", "P3(pydantic)"]
+    ctx.rules_run += ["Y1", "Y2", "Y3", "Y4", "Y5", "Y6", "P3(pydantic)", "Y11"]
+    rule_Y11(ctx)
     template.rule_Y1(ctx, full=ctx.tier == "thorough")
     template.rule_Y2(ctx)
     template.rule_Y2iii(ctx)
